@@ -5,6 +5,9 @@
 //! `KindSetIter` under {next, next_back} from all 64 initial states, in lock-step with a
 //! `VecDeque<Kind>` reference.
 
+#[global_allocator]
+static ALLOC: explore::ThreadCache = explore::ThreadCache;
+
 use explore::serde_json::json;
 use explore::{Args, Report, Tally};
 use json_syntax::{Kind, KindSet, Value};
